@@ -343,7 +343,8 @@ def oracle_linear(ctx, geo, cfg, coef):
     _, s2, _ = realise(g2)
     s3 = (np.float32(a) * s1 + np.float32(b) * s2).astype(np.float32)
     nbf = int(mask.sum())
-    bs = [None, max(1, nbf // 3), 1]
+    bb = max(1, nbf // 3)        # the same batch size for the three runs: a batch-size dependence is not
+    bs = [bb, bb, bb]            # reported under the linearity key
     r1 = rec(dp1, **rkw(cfg, b=bs[0]))
     dp2, *_ = build(geo, stack=s2, aberr=cfg["aberr"])
     r2 = rec(dp2, **rkw(cfg, b=bs[1]))
@@ -373,6 +374,18 @@ def split_mask(r, mask, nparts):
         m[idx[[i for i, l in enumerate(lab) if l == p]]] = True
         parts.append(m.reshape(mask.shape))
     return parts
+
+
+def split_mask_weighted(r, geo, nparts):
+    """complementary sub-masks, each with a non-zero aperture weight (W = 0 is outside the
+    domain of the property: the result is divided by W)"""
+    mask, _, semi = realise(geo)
+    w = aperture_weights(geo, semi)
+    for _ in range(50):
+        parts = split_mask(r, mask, nparts)
+        if all(float(w[p].sum()) > 0.05 for p in parts):
+            return parts
+    return [mask]
 
 
 def oracle_submask(ctx, geo, cfg, parts_l):
@@ -675,7 +688,7 @@ def observed_index_map(geo, mask, sub):
 def check_index_map(ctx: Ctx):
     r = ctx.rng
     cases = []
-    for _ in range(ctx.budget(40, 400)):
+    for _ in range(ctx.budget(80, 1500)):
         G = (r.randint(2, 6), r.randint(2, 7))
         nfull = r.randint(2, min(12, G[0] * G[1]))
         cells = r.sample(range(G[0] * G[1]), nfull)
@@ -761,7 +774,7 @@ def eval_files(ctx: Ctx, name, cases, timeout=200):
 def check_skeleton(ctx: Ctx):
     r = ctx.rng
     exprs, metas = [], []
-    kinds = list(KERNELS) * ctx.budget(1, 4) + ["obf", "mf"]
+    kinds = list(KERNELS) * ctx.budget(2, 12) + ["obf", "mf"]
     hook_missing = False
     for k in kinds:
         geo = gen_geometry(r, small=True)
@@ -776,7 +789,7 @@ def check_skeleton(ctx: Ctx):
         exprs.append(sc[0])
         metas.append(("skeleton", geo, cfg, sc[1]))
     # whole parallax pipeline from the raw stack, sub-masks included
-    for _ in range(ctx.budget(3, 10)):
+    for _ in range(ctx.budget(6, 40)):
         geo = gen_geometry(r, small=True)
         cfg = gen_config(r, "prlx")
         cfg["flip"] = False
@@ -786,7 +799,7 @@ def check_skeleton(ctx: Ctx):
         if geo["scan"][0] * geo["scan"][1] * cfg["u"] ** 2 * geo["nbf"] > 600:
             cfg["u"] = 1
         mask, _, _ = realise(geo)
-        sub = split_mask(r, mask, 2)[0] if r.random() < 0.7 else mask
+        sub = split_mask_weighted(r, geo, 2)[0] if r.random() < 0.7 else mask
         exprs.append(pipeline_case(ctx, geo, cfg, sub))
         metas.append(("pipeline", geo, cfg, {"sub": np.asarray(sub).tolist()}))
     if hook_missing:
@@ -812,10 +825,14 @@ def check_skeleton(ctx: Ctx):
                 b = meta["bsizes"][idx] if kind == "skeleton" else None
                 # does the property itself fail on this input?
                 bad = oracle_batch_alias(ctx, geo, cfg)[0]
+                if kind == "pipeline" and not bad:
+                    bad = oracle_parallax(ctx, geo, cfg)[0]
                 ctx.violation("%s-correspondence/%s" % (kind, cfg["kernel"]),
                               "the Coq model of reconstruct (%s, kernel %s, batch size %s) and the implementation differ "
                               "by %.3g relative: the theorems no longer describe this code" % (kind, cfg["kernel"], b, rel),
-                              {"kind": "oracle", "geo": geo, "cfg": cfg, "which": "batch", "meta": meta},
+                              {"kind": "oracle", "geo": geo, "cfg": cfg,
+                               "which": "parallax" if (kind == "pipeline" and bad and bad[0][0].startswith("parallax")) else "batch",
+                               "meta": meta},
                               found_input=bool(bad))
     ctx.cov["model_vs_impl_worst_relative_difference"] = worst
     ctx.log("model runs: %d expressions, %d disagreements, worst relative difference %.2g" % (len(exprs), nd, worst))
@@ -838,7 +855,7 @@ def run_oracles(ctx: Ctx):
     r = ctx.rng
     worst = {"batch": 0.0, "linear": 0.0, "submask": 0.0, "parallax": 0.0, "intshift": 0.0}
     # --- batch sizes + aliases: every kernel, several geometries
-    nrep = ctx.budget(3, 30)
+    nrep = ctx.budget(5, 100)
     for rep in range(nrep):
         for k in KERNELS:
             geo = gen_geometry(r)
@@ -861,7 +878,7 @@ def run_oracles(ctx: Ctx):
             if rep == 0 and k == "obf":
                 ctx.sample({"kind": "batch", "geo": geo, "cfg": cfg, "num_bf": nbf, "worst_relative_difference": err})
     # --- linearity
-    for rep in range(ctx.budget(2, 16)):
+    for rep in range(ctx.budget(3, 60)):
         for k in KERNELS:
             geo = gen_geometry(r)
             cfg = gen_config(r, k)
@@ -872,12 +889,11 @@ def run_oracles(ctx: Ctx):
             ctx.dist("linear/%s" % k)
             report(ctx, found, geo, cfg, "linear", {"coef": list(coef)})
     # --- sub-mask recombination (single-pass kernels)
-    for rep in range(ctx.budget(2, 16)):
+    for rep in range(ctx.budget(4, 80)):
         for k in SINGLE_PASS:
             geo = gen_geometry(r)
             cfg = gen_config(r, k)
-            mask, _, _ = realise(geo)
-            parts = split_mask(r, mask, r.choice([2, 2, 3]))
+            parts = split_mask_weighted(r, geo, r.choice([2, 2, 3]))
             parts_l = [p.tolist() for p in parts]
             found, err = oracle_submask(ctx, geo, cfg, parts_l)
             worst["submask"] = max(worst["submask"], err if math.isfinite(err) else 0.0)
@@ -885,7 +901,7 @@ def run_oracles(ctx: Ctx):
             ctx.dist("submask/%s/parts=%d" % (k, len(parts)))
             report(ctx, found, geo, cfg, "submask", {"parts": parts_l})
     # --- analytic parallax
-    for rep in range(ctx.budget(8, 60)):
+    for rep in range(ctx.budget(16, 300)):
         geo = gen_geometry(r)
         cfg = gen_config(r, "prlx")
         cfg["flip"] = False
@@ -911,7 +927,7 @@ def run_oracles(ctx: Ctx):
         report(ctx, found, geo, cfg, "parallax")
         if rep == 2:
             ctx.sample({"kind": "parallax", "geo": geo, "cfg": cfg, "relative_difference_to_analytic": err})
-    for rep in range(ctx.budget(2, 10)):
+    for rep in range(ctx.budget(4, 60)):
         geo, cfg, m = integer_shift_case(r)
         found, err = oracle_integer_shift(ctx, geo, cfg, m)
         worst["intshift"] = max(worst["intshift"], err if math.isfinite(err) else 0.0)
